@@ -654,8 +654,11 @@ def _fit_windows(
     windows['range', 0] = center - width / 2
     windows['range', 1] = np.nextafter(center.values + width.value / 2, np.inf)
 
-    windows = _clip_to_data_range(data, windows)
+    # Separate first and clip last: clipping only moves edges towards the data range,
+    # so the windows of estimates outside of the data end up empty but inside the range
+    # instead of inverted.
     _separate_from_neighbors_in_place(center, windows, fit_parameters)
+    windows = _clip_to_data_range(data, windows)
 
     return windows
 
